@@ -2,15 +2,17 @@
 From Coq Require Extraction.
 From Coq Require Import ExtrOcamlBasic.
 From SQ Require Import lib.Base.
-From SQ Require model.FlowRecv model.FlowRecvSpec model.StreamCtl model.StreamCtlSpec model.FrameVal.
+From SQ Require model.FlowRecv model.FlowRecvSpec model.StreamCtl model.StreamCtlSpec model.FrameVal model.CryptoRecv.
 Extraction Language OCaml.
 
 Definition rx_run := FlowRecv.run.
 Definition rx_judge := FlowRecvSpec.judge.
 Definition rx_judge_tolerant := FlowRecvSpec.judge_tolerant.
+Definition crypto_run := CryptoRecv.crun.
+Definition crypto_judge := CryptoRecv.cjudge.
 Definition fv_run := FrameVal.fv_run.
 Definition fv_judge := FrameVal.fv_judge.
 Definition st_run := StreamCtl.srun.
 Definition st_judge := StreamCtlSpec.sjudge.
 Definition st_judge_tolerant := StreamCtlSpec.sjudge_tolerant.
-Extraction "../ocaml/gen/C04/model.ml" rx_run rx_judge rx_judge_tolerant st_run st_judge st_judge_tolerant fv_run fv_judge.
+Extraction "../ocaml/gen/C04/model.ml" rx_run rx_judge rx_judge_tolerant st_run st_judge st_judge_tolerant fv_run fv_judge crypto_run crypto_judge.
